@@ -735,3 +735,93 @@ Proof.
   intro H. assert (g' = (m', if in_view v sx sy then (sx, sy) else snd g)) as -> by congruence.
   cbn [fst snd]. split; reflexivity.
 Qed.
+
+(* ---- histories of PAINT statements *)
+Lemma flood_covers fuel v m sx sy p border m' :
+  covers m v -> flood_fill_pat fuel v m sx sy p border = Ok m' -> covers m' v.
+Proof.
+  intros Hcov Hrun.
+  destruct (flood_fill_loop _ _ _ _ _ _ _ _ Hrun) as [->|(Hseed & Hloop)]; [exact Hcov|].
+  destruct (loop_partial_s v p border m sx sy fuel _ _ _ _ (sinv_init v p border m sx sy Hcov Hseed) Hloop)
+    as (W & Hinv).
+  exact (i_cov _ _ _ _ _ _ _ _ _ Hinv).
+Qed.
+
+Lemma paint_step_facts text_mode num_attr fg v m x y c b m' :
+  covers m v -> paint text_mode num_attr fg v m x y c b = Ok m' ->
+  covers m' v /\
+  forall px py, pix m' px py <> pix m px py ->
+    in_view v px py = true /\ pix m' px py = fill_of num_attr fg c.
+Proof.
+  intros Hcov Hp. apply paint_ok in Hp. split.
+  - exact (flood_covers _ _ _ _ _ _ _ _ Hcov Hp).
+  - intros px py Hne. destruct (flood_sound _ _ _ _ _ _ _ _ Hcov Hp px py Hne) as [Hr Hf].
+    split; [exact (proj1 (region_open _ _ _ _ _ _ _ Hr))|exact Hf].
+Qed.
+
+(* every history of PAINT / PAINT STEP statements: the viewport stays covered, every pixel that differs at the
+   end lies inside the viewport and holds the fill attribute of one of the statements, and the last referenced
+   point is the initial one or lies inside the viewport *)
+Theorem paint_hist_sound text_mode num_attr fg v : forall l g g',
+  covers (fst g) v -> paint_hist text_mode num_attr fg v g l = Ok g' ->
+  covers (fst g') v /\
+  (forall px py, pix (fst g') px py <> pix (fst g) px py ->
+     in_view v px py = true /\ exists st, In st l /\ pix (fst g') px py = fill_of num_attr fg (s_c st)) /\
+  (snd g' = snd g \/ in_view v (fst (snd g')) (snd (snd g')) = true).
+Proof.
+  induction l as [|st r IH]; intros g g' Hcov Hrun; cbn [paint_hist] in Hrun.
+  - assert (g' = g) as -> by congruence. split; [exact Hcov|]. split; [intros px py H; contradiction|now left].
+  - destruct (paint_lp text_mode num_attr fg v g st) as [g1| | |] eqn:E1; cbn [bind] in Hrun; try discriminate.
+    destruct (paint_lp_spec _ _ _ _ _ _ _ E1) as [Hp Hlp]. cbv zeta in Hp, Hlp.
+    destruct (paint_step_facts _ _ _ _ _ _ _ _ _ _ Hcov Hp) as [Hcov1 Hch1].
+    destruct (IH g1 g' Hcov1 Hrun) as (Hcov' & Hch & Hl).
+    split; [exact Hcov'|]. split.
+    + intros px py Hne.
+      destruct (Z.eq_dec (pix (fst g') px py) (pix (fst g1) px py)) as [Heq|Hne1].
+      * rewrite Heq in Hne |- *. destruct (Hch1 px py Hne) as [Hv Hf].
+        split; [exact Hv|]. exists st. split; [now left|exact Hf].
+      * destruct (Hch px py Hne1) as [Hv (st' & Hin & Hf)].
+        split; [exact Hv|]. exists st'. split; [now right|exact Hf].
+    + destruct (in_view v (fst (stmt_seed (snd g) st)) (snd (stmt_seed (snd g) st))) eqn:Ev.
+      * destruct Hl as [Hl|Hl]; [|now right]. right. rewrite Hl, Hlp. exact Ev.
+      * destruct Hl as [Hl|Hl]; [left; congruence|now right].
+Qed.
+
+Theorem paint_hist_never_out_of_fuel text_mode num_attr fg v : forall l g,
+  covers (fst g) v -> paint_hist text_mode num_attr fg v g l <> OutOfFuel.
+Proof.
+  induction l as [|st r IH]; intros g Hcov; cbn [paint_hist]; [discriminate|].
+  destruct (paint_lp text_mode num_attr fg v g st) as [g1| | |] eqn:E1; cbn [bind]; try discriminate.
+  - apply IH. destruct (paint_lp_spec _ _ _ _ _ _ _ E1) as [Hp _]. cbv zeta in Hp.
+    exact (proj1 (paint_step_facts _ _ _ _ _ _ _ _ _ _ Hcov Hp)).
+  - exfalso. unfold paint_lp in E1. destruct (stmt_seed (snd g) st) as [sx sy].
+    destruct (paint text_mode num_attr fg v (fst g) sx sy (s_c st) (s_b st)) eqn:Ep; cbn [bind] in E1;
+      try discriminate.
+    exact (paint_never_out_of_fuel _ _ _ _ _ _ _ _ _ Hcov Ep).
+Qed.
+
+(* sharper: a pixel that differs at the end was painted by some statement st of the history, it lies in the
+   region (of the picture at that moment) that contains st's start point - the start point being resolved from
+   the last referenced point at that moment - and it holds st's fill attribute *)
+Theorem paint_hist_regions text_mode num_attr fg v : forall l g g',
+  covers (fst g) v -> paint_hist text_mode num_attr fg v g l = Ok g' ->
+  forall px py, pix (fst g') px py <> pix (fst g) px py ->
+  exists l1 st l2 gk,
+    l = l1 ++ st :: l2 /\ paint_hist text_mode num_attr fg v g l1 = Ok gk /\
+    region (fst gk) v (border_of num_attr fg (s_c st) (s_b st))
+           (fst (stmt_seed (snd gk) st)) (snd (stmt_seed (snd gk) st)) px py /\
+    pix (fst g') px py = fill_of num_attr fg (s_c st).
+Proof.
+  induction l as [|st r IH]; intros g g' Hcov Hrun px py Hne; cbn [paint_hist] in Hrun.
+  - assert (g' = g) by congruence. subst. contradiction.
+  - destruct (paint_lp text_mode num_attr fg v g st) as [g1| | |] eqn:E1; cbn [bind] in Hrun; try discriminate.
+    destruct (paint_lp_spec _ _ _ _ _ _ _ E1) as [Hp Hlp]. cbv zeta in Hp, Hlp.
+    destruct (paint_step_facts _ _ _ _ _ _ _ _ _ _ Hcov Hp) as [Hcov1 _].
+    destruct (Z.eq_dec (pix (fst g') px py) (pix (fst g1) px py)) as [Heq|Hne1].
+    + exists [], st, r, g. split; [reflexivity|]. split; [reflexivity|].
+      rewrite Heq in Hne |- *. apply paint_ok in Hp.
+      exact (flood_sound _ _ _ _ _ _ _ _ Hcov Hp px py Hne).
+    + destruct (IH g1 g' Hcov1 Hrun px py Hne1) as (l1 & st' & l2 & gk & Hl & Hk & Hreg & Hf).
+      exists (st :: l1), st', l2, gk. split; [now rewrite Hl|]. split; [|split; assumption].
+      cbn [paint_hist]. rewrite E1. exact Hk.
+Qed.
